@@ -7,9 +7,15 @@ import (
 
 // generators for C09 (panic containment) and C10 (pristine context), executor rp.go with the twin oracle
 
-func wst(code int) Sx      { return L(A("w"), L(A("st"), I(code))) }
-func wwr(b string) Sx      { return L(A("w"), L(A("wr"), SB([]byte(b)))) }
-func idsSx(xs ...int) []Sx { var o []Sx; for _, x := range xs { o = append(o, I(x)) }; return o }
+func wst(code int) Sx { return L(A("w"), L(A("st"), I(code))) }
+func wwr(b string) Sx { return L(A("w"), L(A("wr"), SB([]byte(b)))) }
+func idsSx(xs ...int) []Sx {
+	var o []Sx
+	for _, x := range xs {
+		o = append(o, I(x))
+	}
+	return o
+}
 
 // ---------------- C09 ----------------
 func c09Gen(r *Rng, tier string, i int) Sx {
